@@ -38,6 +38,12 @@ COMMON_ASSUME = [
 ]
 
 PROPS = {
+    "C01": {
+        "slices": ["tree", "dets", "C01", "C05"],
+        "relevant_diff": anything,
+        "assumptions": COMMON_ASSUME + ["panic-freedom and termination of encoding/csv, encoding/xml, x/net/html, time.Parse, bufio are exercised, not proved"],
+        "trusted_base": ["translated signature expressions (BExp) regenerated each run; hand models of zipContains, matchOleClsid, CRX, matroska, ciCheck/markupCheck/shebangCheck with checked indexing"],
+    },
     "C03": {
         "slices": ["tree", "corpus", "C03"],
         "relevant_diff": walk_not_shape,
@@ -49,6 +55,13 @@ PROPS = {
         "relevant_diff": walk_only,
         "assumptions": COMMON_ASSUME + ["extension names are fresh for the Lookup clause (DESIGN.md §9)"],
         "trusted_base": ["(*MIME).Extend / lookup hand-modelled as Tree.extendAt / Tree.lookup; tied by xwalk/xlookup ops (runtime tree dump after every script = model tree)"],
+    },
+    "C05": {
+        "slices": ["C05"],
+        "relevant_diff": anything,
+        "assumptions": COMMON_ASSUME + ["*os.File behaves as a conforming io.Reader", "io.ReadFull / io.ReadAll hand-modelled (Reader.lean)"],
+        "trusted_base": ["DetectReader control flow hand-modelled; tie: scripted-reader ops (delivered count, error class, result vs Detect)"],
+        "partial": ["reader_error: only the single failing Read is proved (read_at_error); the full statement 'error at offset k < header length => (errMIME, err) after exactly k bytes' is checked by correspondence + spec oracle only"],
     },
     "C07": {
         "slices": ["tree", "C07", "corpus"],
